@@ -413,6 +413,22 @@ static bool cmpCompoundConstraintPriority(const cola::CompoundConstraint *lhs,
 }
 
 
+// Orders clusters by the index of their boundary variables, rather than by
+// pointer value, so that the order in which non-overlap constraints are
+// generated doesn't depend on where the clusters were allocated.
+struct CmpClusterPtrByVarId
+{
+    bool operator()(const Cluster *lhs, const Cluster *rhs) const
+    {
+        if (lhs->clusterVarId != rhs->clusterVarId)
+        {
+            return lhs->clusterVarId < rhs->clusterVarId;
+        }
+        return lhs < rhs;
+    }
+};
+
+
 void ConstrainedFDLayout::recGenerateClusterVariablesAndConstraints(
         vpsc::Variables (&vars)[2], unsigned int& priority,
         cola::NonOverlapConstraints *noc, Cluster *cluster,
@@ -476,8 +492,8 @@ void ConstrainedFDLayout::recGenerateClusterVariablesAndConstraints(
         // The set of clusters to put non-overlap constraints between is the
         // child clusters of this cluster.  We will also add any overlapping
         // clusters (due to multiple inheritence) to this set.
-        std::set<Cluster *> expandedClusterSet(cluster->clusters.begin(),
-                cluster->clusters.end());
+        std::set<Cluster *, CmpClusterPtrByVarId> expandedClusterSet(
+                cluster->clusters.begin(), cluster->clusters.end());
         for (std::set<unsigned>::iterator curr = cluster->nodes.begin();
                 curr != cluster->nodes.end(); ++curr)
         {
@@ -496,7 +512,8 @@ void ConstrainedFDLayout::recGenerateClusterVariablesAndConstraints(
             noc->addShape(id, boundingBoxes[id]->width() / 2,
                     boundingBoxes[id]->height() / 2, group);
         }
-        for (std::set<Cluster*>::iterator curr = expandedClusterSet.begin();
+        for (std::set<Cluster *, CmpClusterPtrByVarId>::iterator curr =
+                expandedClusterSet.begin();
                 curr != expandedClusterSet.end(); ++curr)
         {
             Cluster *cluster = *curr;
